@@ -395,7 +395,7 @@ func ruleRespMatch(c *RC) *RuleResult {
 			r.Sites++
 			bad := ""
 			for _, l := range condLits(s) {
-				if !strings.Contains(l.A.S, "elem(ctx.PreparationPayloads)") {
+				if !strings.Contains(canonElem(l.A.S), "elem(ctx.PreparationPayloads)") {
 					bad = l.String()
 				}
 			}
